@@ -574,6 +574,15 @@ class TensorEval:
             if r_ is not NotImplemented:
                 return r_
         fn = e.func
+        if isinstance(fn, ast.Name) and fn.id == 'getattr' and fn.id not in env and len(e.args) == 3 and isinstance(e.args[0], ast.Name) and e.args[0].id == 'self' \
+                and isinstance(e.args[1], ast.Constant) and isinstance(e.args[1].value, str) and not e.keywords:
+            # getattr(self, 'name', default): the attribute when this call path (or the seeds) bound it, else the default
+            t_ = 'self.' + e.args[1].value
+            if t_ in env:
+                return env[t_]
+            if t_ in self.seeds:
+                return self.seeds[t_]
+            return self.ev(f, e.args[2], env)
         name = norm(fn).split('.')[-1]
         kw = {k.arg: self.ev(f, k.value, env) for k in e.keywords if k.arg and k.arg != 'dtype'}
         dtype_txt = next((norm(k.value) for k in e.keywords if k.arg == 'dtype'), None)
